@@ -215,9 +215,10 @@ static void upipe_stream_switcher_input_free(struct urefcount *urefcount)
     struct upipe *upipe =
         upipe_stream_switcher_input_to_upipe(upipe_stream_switcher_input);
 
+    /* may log about the buffers still held */
+    upipe_stream_switcher_input_clean_input(upipe);
     upipe_throw_dead(upipe);
 
-    upipe_stream_switcher_input_clean_input(upipe);
     upipe_stream_switcher_input_clean_sub(upipe);
     upipe_stream_switcher_input_clean_urefcount(upipe);
     upipe_stream_switcher_input_free_void(upipe);
